@@ -897,6 +897,9 @@ func (s *State) evalIdentifier(node *ast.Identifier) object.Object {
 	}
 	val, ok := s.env.Get(name)
 	if !ok {
+		// That the name is unbound is a fact about the outer state too: catch() or log() can turn this error into
+		// a cacheable result, which a later definition of the name would make stale.
+		s.env.TriggerNoCache()
 		return s.NewError("identifier not found: " + node.Literal())
 	}
 	return val
